@@ -296,6 +296,15 @@ def c04_extra():
     out.append(("V2-equal-weights-11", dict(), model([pop], nodes_, es2)))
     es3 = [edge(f"n{(i + 1) % nn_}/op/r", f"n{i}/op/r_in", 1.0) for i in range(nn_)]
     out.append(("V3-unit-weights-11", dict(), model([pop], nodes_, es3)))
+    # weights normalised by their maximum: the largest is exactly 1.0, the others are not
+    es7 = [edge(f"n{(i + 1) % nn_}/op/r", f"n{i}/op/r_in", round((i + 1) / nn_, 4)) for i in range(nn_)]
+    out.append(("V7-max-normalised-weights-11", dict(), model([pop], nodes_, es7)))
+    es8 = [edge(f"n{(i + 1) % nn_}/op/r", f"n{i}/op/r_in", 1.0 if i % 3 else 1.0 - 0.05 * i) for i in range(nn_)]
+    out.append(("V8-mostly-unit-weights-11", dict(), model([pop], nodes_, es8)))
+    # one source unit fanning out to several units of a merged target, edges listed in non-ascending target order
+    nodes9 = {f"n{i}": dict(ops=["op"], over={"op/tau": 1.0 + 0.25 * i}) for i in range(5)}
+    es9 = [edge("n0/op/r", f"n{j}/op/r_in", w) for j, w in ((3, 0.5), (1, -1.5), (4, 2.0), (2, 0.25))]
+    out.append(("V9-single-source-fanout-unsorted-targets", dict(), model([pop], nodes9, es9)))
     a = op_li("ea", x="r", ins=("r_in",), tau=2.0, x0=0.4, in_defaults={"r_in": 0.0})
     b = op_li("ib", x="v", ins=("u", "w"), tau=1.0, x0=-0.2, in_defaults={"u": 0.0, "w": 0.0})
     nodes4 = {"e0": dict(ops=["ea"]), "e1": dict(ops=["ea"], over={"ea/tau": 3.0}), "e2": dict(ops=["ea"], over={"ea/tau": 0.7}),
